@@ -95,6 +95,33 @@ def main():
                 continue
         return None
 
+    def refused_case(tag, r):
+        shape, fm = r.choice([("A(i,j) = B(i,j) * C(j,i)", {"A": "ss", "B": "ss", "C": "ss"}),
+                              ("A(i,j) = B(i,j) + C(j,i)", {"A": "ds", "B": "ds", "C": "ds"}),
+                              ("a(i) = B(i,i)", {"a": "d", "B": "ds"})])
+        target, tree = gen.parse(shape)
+        tn = [target[1]] + list(gen.tensors_of(tree))
+        tmap = {n: f"{n}{tag}" for n in tn}
+
+        def ren(x):
+            if x[0] == "t":
+                return ("t", tmap[x[1]], x[2])
+            if x[0] == "n":
+                return x
+            return (x[0], ren(x[1]), ren(x[2]))
+
+        target, tree = ren(target), ren(tree)
+        case = engine.build_case(r, target, tree, {tmap[n]: f for n, f in fm.items()}, capacity=None, origin="c14-refused", sizes_pool=[2, 3])
+        case.direct_problem = False
+        case.formats = {tmap[n]: fm[n] for n in tn}
+        try:
+            engine.generate_module(engine.make_problem(case), ("evaluate",))
+        except engine.Refused:
+            return case
+        except Exception:  # noqa: BLE001
+            return None
+        return None
+
     def call(case, backend):
         ins = engine.jit_inputs(case)
         out_fmt = case.formats[case.target[1]]
@@ -145,6 +172,9 @@ def main():
         call(base, "llvm")  # warm the cache
         # (b) one never-seen problem requested by all threads at once
         shared_new = fresh_case(f"S{seed}x{rnd}", r)
+        # (b') one never-seen problem that has NO kernel, requested by all threads at once: every caller must get
+        # the refusal the call gets when made alone (failures are not cached, so every round is a first request)
+        shared_refused = refused_case(f"N{seed}x{rnd}", r)
         per_thread = []
         for tid in range(n_threads):
             ops = []
@@ -154,6 +184,9 @@ def main():
                     c = engine.build_case(r, base.target, base.tree, dict(base.formats), capacity=None, origin="cached", sizes_pool=[1, 2, 3, 4, 5])
                     c.formats = base.formats
                     miss = False
+                elif kind < 0.5 and shared_refused is not None and k < 2:
+                    c = shared_refused
+                    miss = True
                 elif kind < 0.6 and shared_new is not None:
                     c = engine.build_case(r, shared_new.target, shared_new.tree, dict(shared_new.formats), capacity=None, origin="shared-miss", sizes_pool=[2, 3])
                     c.formats = shared_new.formats
@@ -202,6 +235,7 @@ def main():
         gc.collect()
     # sequential results for everything else AFTER the threads are done (alone, same process)
     seq_errors = 0
+    same_refusals = [0]
     for ev in events:
         op = ev["op"]
         c, backend = all_ops[op]
@@ -215,6 +249,13 @@ def main():
         if ev["error"] is not None:
             if not str(want).startswith("ERR:"):
                 errors.append({"event": ev, "case": c.describe(), "sequential": "ok"})
+            elif ev["error"].split(":", 1)[0] != str(want)[4:]:
+                # the call fails alone too, but with another exception: "behaves like the same call made alone"
+                errors.append({"event": ev, "case": c.describe(), "sequential": want})
+            else:
+                same_refusals[0] += 1
+        elif str(want).startswith("ERR:"):
+            errors.append({"event": ev, "case": c.describe(), "sequential": want, "concurrent": "returned a result"})
         elif ev["digest"] != want:
             mismatches.append({"event": ev, "case": c.describe(), "sequential_digest": want})
     # overlap statistics from the history
@@ -232,7 +273,7 @@ def main():
     json.dump({"calls": len(events), "mismatches": mismatches[:5], "n_mismatches": len(mismatches), "errors": errors[:5], "n_errors": len(errors),
                "overlapping_call_pairs": overlap_pairs, "overlapping_cache_miss_pairs": miss_overlap, "max_overlap_degree": max_deg,
                "hook_points": hook_points[0], "yields_injected": yields[0], "interleaving_signature": signature.hexdigest(),
-               "cffi_calls": sum(1 for e in events if e["backend"] == "cffi"), "sequential_errors": seq_errors,
+               "cffi_calls": sum(1 for e in events if e["backend"] == "cffi"), "sequential_errors": seq_errors, "refusals_equal_to_sequential": same_refusals[0],
                "sample_history": events[:4]}, open(out_path, "w"))
 
 
